@@ -758,19 +758,33 @@ def prove(c: Ctx, prop, extra=(), timeout_ms=20000):
         s = z3.Solver()
         s.add(*c.all_constraints())
         c._psolver, c._pcount = s, ncons
-    s.set('timeout', int(timeout_ms))
-    s.push()
+    # fast attempt on the shared incremental solver (cheap: constraints asserted once per path) ...
     t0 = time.time()
-    try:
-        s.add(*extra)
-        s.add(*neg)
-        r = str(s.check())
-        m = s.model() if r == 'sat' else None
-    except z3.Z3Exception:
-        r, m = 'unknown', None
-    dt = time.time() - t0
-    s.pop()
-    return r, m, dt
+    r, m = 'unknown', None
+    if _INC_FAILS[0] < 3:
+        s.set('timeout', int(min(timeout_ms, INCREMENTAL_MS)))
+        s.push()
+        try:
+            s.add(*extra)
+            s.add(*neg)
+            r = str(s.check())
+            m = s.model() if r == 'sat' else None
+        except z3.Z3Exception:
+            r, m = 'unknown', None
+        s.pop()
+        if r == 'unknown':
+            _INC_FAILS[0] += 1
+        elif _INC_FAILS[0] > 0:
+            _INC_FAILS[0] -= 1
+    if r == 'unknown':
+        # ... then a fresh solver: z3's non-incremental mode uses the full nonlinear tactic pipeline (nlsat), which decides
+        # polynomial identities the incremental core gives up on
+        r, m, _ = check_sat(c.all_constraints() + list(extra) + neg, timeout_ms)
+    return r, m, time.time() - t0
+
+
+INCREMENTAL_MS = 400
+_INC_FAILS = [0]   # after repeated failures in this process the incremental attempt is skipped
 
 
 # --------------------------------------------------------------------------------------------------
